@@ -36,6 +36,28 @@ func main() {
 					tg.exportedOnly = true
 					continue
 				}
+				if c == "paths" {
+					tg.paths = true
+					continue
+				}
+				if c == "noaccess" {
+					tg.noAccess = true
+					continue
+				}
+				if strings.HasPrefix(c, "ext=") {
+					tg.extNames = map[string]bool{}
+					for _, n := range strings.Split(strings.TrimPrefix(c, "ext="), ",") {
+						tg.extNames[n] = true
+					}
+					continue
+				}
+				if strings.HasPrefix(c, "only=") {
+					tg.only = map[string]bool{}
+					for _, n := range strings.Split(strings.TrimPrefix(c, "only="), ",") {
+						tg.only[n] = true
+					}
+					continue
+				}
 				if strings.HasPrefix(c, "vars=") {
 					tg.vars = strings.Split(strings.TrimPrefix(c, "vars="), ",")
 					continue
